@@ -1471,3 +1471,72 @@ PROPS["C08"] = {
                     "the model's read-only theorems are about the flag the precompile receives"],
     "trusted": ["C08: the proxy contract (harness/internal/easm) and the store digests used as the state-change detector"],
 }
+
+
+# ------------------------------------------------------------------------------------------------ C06 funtoken backing
+def parse_ft_obs(ob):
+    f = ob.split()
+    res = f[0]
+    kv = dict(x.split("=", 1) for x in f[1:] if "=" in x)
+    maps = [tuple(x.split(":")) for x in plist(kv.get("M", "-"))]
+    bank, tok = {}, {}
+    for x in plist(kv.get("B", "-")):
+        d, a, v = x.rsplit(":", 2)
+        bank[(d, a)] = int(v)
+    for x in plist(kv.get("T", "-")):
+        t, a, v = x.split(":")
+        tok[(t, a)] = int(v)
+    return res, maps, bank, tok
+
+
+def oracle_c06(run, ops, impl):
+    out = []
+    for i, (op, ob) in enumerate(zip(ops, impl)):
+        res, maps, bank, tok = parse_ft_obs(ob)
+        if res == "panic":
+            out.append(V("C06:panic", {"line": i + 1, "op": op}))
+            continue
+        if res == "inner-frame-did-not-revert":
+            out.append(V("C06:harness-anomaly:inner-frame-did-not-revert", {"line": i + 1, "op": op}))
+        toks = [m[0] for m in maps]
+        dens = [m[1] for m in maps]
+        if len(set(toks)) != len(toks):
+            out.append(V("C06:erc20-in-two-mappings", {"line": i + 1, "op": op, "mappings": maps}))
+        if len(set(dens)) != len(dens):
+            out.append(V("C06:denom-in-two-mappings", {"line": i + 1, "op": op, "mappings": maps}))
+        kind = " ".join(op.split()[1:2] + [x for x in op.split()[2:6] if x in ("sendToBank", "sendToEvm", "bankMsgSend", "top", "proxy", "revert")])
+        for (t, d, coin) in maps:
+            if coin == "1":
+                sup, esc = tok.get((t, "S"), 0), bank.get((d, "0"), 0)
+                if sup > esc:
+                    out.append(V("C06:coin-born-erc20-supply-exceeds-escrow:after=%s" % kind.replace(" ", "/"),
+                                 {"line": i + 1, "op": op, "mapping": (t, d), "erc20_total_supply": sup, "escrowed_coin": esc}))
+            else:
+                sup, held = bank.get((d, "S"), 0), tok.get((t, "0"), 0)
+                if sup > held:
+                    out.append(V("C06:erc20-born-bank-supply-exceeds-module-erc20-balance:after=%s" % kind.replace(" ", "/"),
+                                 {"line": i + 1, "op": op, "mapping": (t, d), "bank_supply": sup, "module_erc20_balance": held}))
+        if res == "fail" and i > 0 and ops[i].split()[1] != "reset":
+            # a failed operation (incl. one inside a reverted frame) leaves every observed quantity as it was
+            if ob.split(" ", 1)[1:] != impl[i - 1].split(" ", 1)[1:]:
+                out.append(V("C06:failed-or-reverted-operation-changed-state:%s" % kind.replace(" ", "/"), {"line": i + 1, "op": op, "before": impl[i - 1][:300], "after": ob[:300]}))
+    return out
+
+
+PROPS["C06"] = {
+    "modules": ["NibiruProofs.C06"],
+    "prefix": "C06_",
+    "runs": [{"model": "funtoken", "n_quick": 60, "n_thorough": 1500, "thorough_seeds": 6, "nontrivial": r"^ok M=[^-]"}],
+    "oracle": oracle_c06,
+    "rule": "generated histories on the real keeper, msg server and FunToken precompile (real ERC20 bytecode: the module's minter contract, "
+            "TestERC20, TestERC20TransferWithFee): CreateFunToken from a coin / from an ERC20 (repeated and crossed attempts), "
+            "MsgConvertCoinToEvm, precompile sendToBank / sendToEvm / bankMsgSend called by an EOA directly, through a proxy contract, "
+            "and inside a frame that reverts afterwards, direct ERC20 transfers (also to the module account and to the token contract) "
+            "and burns, bank sends; amounts 0, 1, typical, above the balance; hex and bech32 recipients incl. the module account. "
+            "After every operation: every mapping, ERC20 totalSupply and balances, bank supply and balances of all tracked accounts "
+            "on both sides; the model must predict all of it; non-trivial = an operation succeeded with at least one mapping present",
+    "assumptions": ["ERC20 contracts are abstract ledgers of the three kinds present in the repository (minter, standard, 10% "
+                    "fee-on-transfer); the theorem's StandardToken hypothesis is that a transfer debits the sender by exactly the amount",
+                    "every operation is atomic (failing message: branch dropped; reverted frame: journal) — atomicity itself is C04",
+                    "the EVM module account never signs or calls (Op.WF)"],
+}
